@@ -84,6 +84,14 @@ inductive Feature where
   | logical | which | script | scriptInterpreter | fmt
   deriving DecidableEq, Repr, Inhabited
 
+/-- the variant's name in `enum UnstableFeature` (src/unstable_feature.rs) -/
+def Feature.variant : Feature → String
+  | .fmt => "FormatSubcommand"
+  | .logical => "LogicalOperators"
+  | .script => "ScriptAttribute"
+  | .scriptInterpreter => "ScriptInterpreterSetting"
+  | .which => "WhichFunction"
+
 mutual
 /-- the unstable features the parser records while parsing `e`
 (`parse_expression`: `||`, `parse_disjunct`: `&&`, `parse_value`: a call named `which`) -/
